@@ -370,6 +370,10 @@ def h_algo_params(env):
                 _algo_case(env, P, A, mod, algo, defs, supplied, pools if family == "mixed" else valid, mask, k, unknown)
 
 
+def _dict_unchanged(d, before):
+    return list(d.keys()) == list(before.keys()) and all(d[k] is before[k] for k in before)
+
+
 def _algo_case(env, P, A, mod, algo, defs, supplied, pools, mask, k, unknown):
     """one user dict through the three entry points"""
     mode = ["min", "max"][(k + mask) % 2]
@@ -400,6 +404,9 @@ def _algo_case(env, P, A, mod, algo, defs, supplied, pools, mask, k, unknown):
     # --- prepare_algo_params
     r = env.call(A.prepare_algo_params, user, defs)
     _judge(P, "prepare", r, lambda x: x, defs, given, unknown)
+    # frame: what the user supplied is still what the user supplied (the same dict is typically reused for several
+    # algorithms: a preparation that writes converted values / defaults back into it makes the next one reject it)
+    P("prepare.frame.user-supplied-dict-unchanged", _dict_unchanged(user, given), lambda: (user, given))
 
     # --- AlgorithmDef.build_with_default_param (definitions loaded from the module, or explicit)
     explicit = mod is None or (k % 3 == 0)
@@ -409,6 +416,7 @@ def _algo_case(env, P, A, mod, algo, defs, supplied, pools, mask, k, unknown):
     else:
         r2 = env.call(A.AlgorithmDef.build_with_default_param, algo, user2, mode, defs if explicit else None)
     res2 = _judge(P, "build", r2, lambda x: x.params if isinstance(x, A.AlgorithmDef) else x, defs, given, unknown)
+    P("build.frame.user-supplied-dict-unchanged", _dict_unchanged(user2, given), lambda: (user2, given))
     if res2 is not None and isinstance(r2, A.AlgorithmDef):
         P("build.algo-and-mode-kept", r2.algo == algo and r2.mode == mode, lambda: (r2.algo, r2.mode, algo, mode))
         P("build.param_names-and-param_value-agree-with-params",
